@@ -470,7 +470,7 @@ func (p *parser) parseCaseStatement() *ast.CaseStatement {
 	if p.mode&StoreComments != 0 {
 		p.comments.Unset()
 	}
-	p.expect(token.COLON)
+	node.Colon = p.expect(token.COLON)
 
 	for {
 		if p.token == token.EOF ||
